@@ -65,6 +65,8 @@ type Contract struct {
 	Nullable   map[string]bool
 	AliasOK    map[string]bool
 	Fresh      []string // results declared fresh
+	ParamNames  string            // names for the parameters of a contract attached to a function type
+	FnSpecs     map[string]string // function-typed parameter -> contract key used for calls through it
 	InlineCalls map[string]bool
 	HavocCalls  map[string]bool
 	Uses       []string // lemmas
@@ -203,7 +205,7 @@ func (db *ContractDB) LoadContractFile(path, pkgPath string) error {
 			}
 			key = strings.TrimPrefix(key, "std:")
 			c := &Contract{Key: key, Pkg: pkgPath, Rel: name, File: path, Line: ln.n, Loops: map[int]*LoopSpec{},
-				Nullable: map[string]bool{}, AliasOK: map[string]bool{}, InlineCalls: map[string]bool{}, HavocCalls: map[string]bool{}}
+				Nullable: map[string]bool{}, AliasOK: map[string]bool{}, InlineCalls: map[string]bool{}, HavocCalls: map[string]bool{}, FnSpecs: map[string]string{}}
 			toks := strings.Fields(tags)
 			for i := 0; i < len(toks); i++ {
 				switch toks[i] {
@@ -406,6 +408,15 @@ func (db *ContractDB) LoadContractFile(path, pkgPath string) error {
 				return err
 			}
 			cur.GhostSets = append(cur.GhostSets, GhostSet{lhs[:k], oe, e})
+		case "params":
+			cur.ParamNames = rest
+		case "fnspec":
+			// fnspec param: contractKey
+			name, key, ok := strings.Cut(rest, ":")
+			if !ok {
+				return fail("fnspec param: contract")
+			}
+			cur.FnSpecs[strings.TrimSpace(name)] = strings.TrimSpace(key)
 		case "nullable":
 			for _, n := range strings.Fields(strings.ReplaceAll(rest, ",", " ")) {
 				cur.Nullable[n] = true
